@@ -1,6 +1,7 @@
 import BbRe.Lemmas.BuildClientFrame
 import BbRe.Lemmas.BuildClientBound
 import BbRe.Lemmas.BuildClientHanded
+import BbRe.Lemmas.BuildClientDeliv
 /-!
 # C08 — worker: one action at a time, honest state, safe shutdown
 
@@ -103,6 +104,39 @@ theorem honest_state (t0 : Nat) (evs : List Ev) (r : Request) (sn : Snap)
       (∀ u, p = .upd u → e.received.getLast? = some u ∧ e.received <+: e.emitted)) := by
   have := (inv_reachable t0 evs).logOK.1 _ h
   exact ⟨this.1, this.2.1⟩
+
+/-- The completion is never dropped on its way to the scheduler: while the thread
+is outside `stopExecution`'s drain loop and `Execute` has returned `r`, either
+`Completed r` is the last message still waiting in (or blocked on) the update
+channel — whatever the number of progress updates queued before it, also when
+the channel is full — or everything has been taken and the request state is
+`Completed r`. -/
+theorem completion_not_lost (t0 : Nat) (evs : List Ev) (e : Exec) (r : Resp)
+    (hc : (run (init t0) evs).cur = some e) (hr : e.returned = some r)
+    (hk : ∀ k, (run (init t0) evs).pc ≠ .drain k) :
+    (e.buf ++ e.blocked.toList).getLast? = some ⟨e.digest, .completed r⟩ ∨
+      (e.buf ++ e.blocked.toList = [] ∧
+        (run (init t0) evs).req = .executing e.digest (.completed r)) :=
+  (deliv_reachable t0 evs).1 e r hc hr hk
+
+/-- Once the client has released an execution (observed the closed channel, or
+stopped it on the scheduler's instruction) what it reports is `Idle` or a
+`Completed` — never "action in progress" with nothing attached.  By
+`honest_state` that `Completed` carries the executor's own response. -/
+theorem released_reports_completion (t0 : Nat) (evs : List Ev)
+    (hc : (run (init t0) evs).cur = none) :
+    (run (init t0) evs).req = .idle ∨
+      ∃ d r, (run (init t0) evs).req = .executing d (.completed r) :=
+  (deliv_reachable t0 evs).2 hc
+
+/-- non-vacuity: ten updates fill the channel while the thread is in
+`Synchronize`, `Execute` returns (the `Completed` send blocks), the next `Run`
+drains all eleven messages and reports the completion. -/
+example : (run (init 1000) [.runBegin, .readyResult true,
+    .reply (.reply (some 1000) (.execute (.ok 7))), .runBegin, .wakeTimer,
+    .emit 1, .emit 2, .emit 1, .emit 2, .emit 1, .emit 2, .emit 1, .emit 2, .emit 1, .emit 2,
+    .finish ⟨4, true⟩, .reply (.reply (some 1001) .none), .runBegin, .wakeUpdate true]).req
+      = .executing 7 (.completed ⟨4, true⟩) := by decide
 
 /-! ## idle when told, start only when told -/
 
